@@ -119,7 +119,7 @@ ConcatN  == \E ra \in Live, rb \in Live, sh \in NaryShapes : ConcatNOf(ShapeOps(
 BigSeeds == {[kind |-> "rows", hdrs |-> <<"a", "b">>, rows |-> <<<<V1, VX>>, <<None, V2>>>>],
              [kind |-> "recs", recs |-> <<<<<<"a", V2>>, <<"b", None>>>>, <<<<"a", VX>>>>, <<<<"b", V1>>, <<"c", VX>>>>>>]}
 NewBig   == \E rd \in {"r1", "r2"}, s \in BigSeeds, nb \in {<<4, 1>>, <<4, 2>>, <<5, 1>>} :
-               Alloc(rd, Ok(BigT(Construct(s).t, nb[1], nb[2])), [op |-> "NewBig", rd |-> rd, seed |-> s, n |-> nb[1], b |-> nb[2]])
+               Alloc(rd, NewBigT(s, nb[1], nb[2]), [op |-> "NewBig", rd |-> rd, seed |-> s, n |-> nb[1], b |-> nb[2]])
 MaskCyc  == \E r \in Live, pat \in {<<TRUE, FALSE>>, <<FALSE, TRUE, TRUE>>} :                \* d[pattern cycled to len(d)]
                Alloc(NextReg(r), MaskSeqT(T(r), CycleTo(pat, NR(T(r)))), [op |-> "MaskCyc", r |-> r, rd |-> NextReg(r), pat |-> pat])
 SetColCyc == \E r \in Live, pat \in {<<V2, VX>>, <<None, V1, VX>>} : NR(T(r)) > 1 /\         \* d[c] = pattern cycled to len(d)
@@ -272,6 +272,7 @@ ConcatNLaw == \A ra \in Live, rb \in Live, sh \in NaryShapes :
 ScaleLaws == \A r \in Live : NR(T(r)) > 0 =>
                 LET t == T(r)  n == NR(t)  c1 == t.cols[1] IN \A k \in (IF n <= 2 THEN {2, 3} ELSE {2}) :
                 LET big == CopiesT(t, k) IN
+                /\ \A s \in BigSeeds : \A kk \in {2, 3} : LET p == NR(Construct(s).t) IN NewBigT(s, kk * p, 1).t = CopiesT(Construct(s).t, kk)   \* construction from k copies
                 /\ \A m \in {"odd", "all", "nothing"} : MaskSeqT(big, CycleTo(MaskOf(n, m), k * n)).t = CopiesT(MaskT(t, m).t, k)
                 /\ ConcatT(big, t).t = CopiesT(t, k + 1)
                 /\ ConcatManyT([j \in 1..k |-> t]).t = big
